@@ -350,8 +350,48 @@ def derived_strings(c, strs, limit=24):
     return out[:limit]
 
 
+def one_shot(records, k):
+    """The constructor's signature is Iterable[Record]: hand the records over as an iterable that can be walked only once."""
+    k = k % 4
+    if k == 0:
+        return (r for r in records)
+    if k == 1:
+        return iter(records)
+    if k == 2:
+        return map(lambda r: r, records)
+    return filter(lambda r: True, records)
+
+
+def use_as_derivation_input(c):
+    """Derive other converters from c (chain with an overlapping converter that brings new synonyms, sub-converter that is then
+    extended, the three reconciliation functions).  None of this may change c (C10); whatever c then holds is what is queried."""
+    import curies
+    from curies import Record
+
+    others = []
+    for j, r in enumerate(c.records):
+        others.append(Record(prefix=r.prefix, uri_prefix=r.uri_prefix, prefix_synonyms=[f"zq{j}q{r.prefix}"],
+                             uri_prefix_synonyms=[f"zq{j}://{r.uri_prefix}"]))
+    attempts = [
+        lambda: curies.chain([c, curies.Converter(others)]),
+        lambda: curies.chain([curies.Converter(others), c]),
+        lambda: [sub.add_prefix(r.prefix, r.uri_prefix, prefix_synonyms=[f"zs{r.prefix}"], uri_prefix_synonyms=[f"zs://{r.uri_prefix}"], merge=True)
+                 for sub in [c.get_subconverter([r.prefix for r in c.records])] for r in list(sub.records)],
+        lambda: curies.remap_curie_prefixes(c, {r.prefix: f"zr{r.prefix}" for r in c.records}),
+        lambda: curies.remap_uri_prefixes(c, {r.uri_prefix: f"zr://{r.uri_prefix}" for r in c.records}),
+        lambda: curies.rewire(c, {r.prefix: f"zw://{r.uri_prefix}" for r in c.records}),
+    ]
+    for a in attempts:
+        try:
+            a()
+        except Exception:
+            pass
+
+
 def build_converter(recs, d, mode, warm=None):
-    """The converter the records denote, built in one of five ways (the properties quantify over every converter, however
+    """The converter the records denote, built in one of seven ways (5: the constructor fed with a one-shot iterable; 6: the
+    constructor, after which the converter serves as INPUT of chain / get_subconverter / remap_* / rewire calls whose results are
+    thrown away); the first five are: (the properties quantify over every converter, however
     it came about): 0 the constructor; 1 Converter([]) + add_record one by one; 2 bare records first (add_prefix without synonym
     arguments, or add_record for a pattern), their synonyms merged in afterwards with add_prefix(..., merge=True); 3 like 2 with
     the CURIE-prefix synonyms and the URI-prefix synonyms merged in two separate calls; 4 like 3, and the converter is QUERIED
@@ -361,6 +401,12 @@ def build_converter(recs, d, mode, warm=None):
 
     if mode == 0:
         return curies.Converter(mk_records(recs), delimiter=d)
+    if mode == 5:
+        return curies.Converter(one_shot(mk_records(recs), len(recs)), delimiter=d)
+    if mode == 6:
+        c = curies.Converter(mk_records(recs), delimiter=d)
+        use_as_derivation_input(c)
+        return c
     c = curies.Converter([], delimiter=d)
     step = (lambda: warm(c)) if (mode == 4 and warm) else (lambda: None)
     step()
@@ -404,6 +450,10 @@ def observe_q(case):
     if c is None:
         return case, [code, []]
     strs = list(strs) + derived_strings(c, strs)
+    if mode == 6:
+        # ask about every name the records hold NOW (a derivation that wrote into c's records shows here)
+        extra = [x for r in c.records for x in [*(p + d + "1" for p in r.prefix_synonyms), *(u + "1" for u in r.uri_prefix_synonyms)]]
+        strs += [x for x in dict.fromkeys(extra) if x not in strs][:16]
     case = [recs, d, strs, pairs] + ([mode] if len(case) > 4 else [])
     return case, [0, battery(c, strs, pairs)]
 
@@ -439,7 +489,7 @@ def gen_qcase(rng: random.Random, focus: str):
                 strs.append(r[1] + "1")
         strs = list(dict.fromkeys(strs))
     pairs = gen_pairs(rng, recs, rng.randint(0, 2) if focus not in ("C02", "C08") else rng.randint(1, 3))
-    return [recs, d, strs, pairs, rng.choice([0, 0, 0, 1, 2, 2, 3, 3, 4, 4, 4])]
+    return [recs, d, strs, pairs, rng.choice([0, 0, 0, 1, 2, 2, 3, 3, 4, 4, 4, 5, 5, 6, 6])]
 
 
 def nontrivial_q(focus: str, case) -> bool:
